@@ -2,11 +2,13 @@
     (algo/src/distances/exact_sum_sweep/mod.rs): the bound arrays lF,uF,lB,uB, the diameter
     lower bound dL with its vertex, the radius upper bound rU with its vertex, the iteration
     counter; one operation per breadth-first visit ([forward_step_sum_sweep],
-    [backwards_step_sum_sweep]); [find_missing_nodes] and the per-level termination
-    counts; the outputs of every level.  The pivot of every visit and the order in which
-    a parallel visit meets the nodes are ARGUMENTS.  Distances come from the all-pairs
-    matrix of the specification (the visits are the subject of C13); [sym] selects the
-    [run_symm] variant, where the backward arrays alias the forward ones.
+    [backwards_step_sum_sweep]) and one for the symmetric branch of [all_cc_upper_bound];
+    [find_missing_nodes] and the per-level termination counts; the outputs of every level.
+    The pivot of every visit and the order in which a parallel visit / iteration meets the
+    nodes are ARGUMENTS.  Distances come from the all-pairs matrix of the specification
+    (the visits are the subject of C13); [sym] selects the [run_symm] variant, where the
+    backward arrays alias the forward ones.  The machine follows the code AFTER the repairs
+    of the radius bookkeeping; the earlier rules are kept as [*_prefix].
     Definitions only. *)
 From Coq Require Import List Arith Bool Lia.
 Import ListNotations.
@@ -22,9 +24,10 @@ Record st := mkSt {
   lF : list nat; uF : list nat; lB : list nat; uB : list nat;
   dL : nat; dv : nat; rU : nat; rv : nat; iters : nat }.
 
-(** [_new]: lows 0, highs n, diameter_low 0, radius_high n-1 (n/2 when symmetric), both
-    vertices 0 *)
-Definition rU_init (n : nat) (sym : bool) : nat := if sym then n / 2 else n - 1.
+(** [_new]: lows 0, highs n, diameter_low 0, radius_high n (n/2 + 1 when symmetric: one more
+    than the largest possible radius, so that the first radial vertex attaining the radius
+    is always recorded), both vertices 0 *)
+Definition rU_init (n : nat) (sym : bool) : nat := if sym then n / 2 + 1 else n.
 Definition init_st (n : nat) (sym : bool) : st :=
   mkSt (tab n (fun _ => 0)) (tab n (fun _ => n)) (tab n (fun _ => 0)) (tab n (fun _ => n))
        0 0 (rU_init n sym) 0 0.
@@ -42,8 +45,109 @@ Definition low_upd (lo hi : list nat) (dist : nat -> option nat) (v : nat) : nat
   | None => l
   end.
 
-(** [forward_step_sum_sweep] from [s] *)
+(** the radius update inside a visit that raises FORWARD lower bounds (the backward visit,
+    and in the symmetric case also the forward one), node by node in visiting order:
+    [if low != high && low < d { low = d; if d == high && radial && d < radius { radius = (d, node) } }] *)
+Definition rad_visit (x : st) (radial : list bool) (dist : nat -> option nat)
+    (acc : nat * nat) (v : nat) : nat * nat :=
+  match dist v with
+  | Some k =>
+    let l := nth v (lF x) 0 in let h := nth v (uF x) 0 in
+    if negb (l =? h) && (l <? k) && (k =? h) && nth v radial false && (k <? fst acc)
+    then (k, v) else acc
+  | None => acc
+  end.
+
+(** [forward_step_sum_sweep] from [s]; [order]: the order in which the visit meets the nodes
+    (it matters in the symmetric case only, where the visit raises forward lower bounds and a
+    radial vertex completed by it competes for the radius) *)
 Definition fwd_step (sym : bool) (dm : list (list (option nat))) (radial : list bool)
+    (s : nat) (order : list nat) (x : st) : st :=
+  let n := length dm in
+  let e := ecc_f_dm dm s in
+  let dist := fun v => dget dm s v in
+  let nb := tab n (low_upd (bl sym x) (bh sym x) dist) in
+  let lF1 := if sym then nb else lF x in
+  let lB1 := if sym then lB x else nb in
+  let r := if sym then fold_left (rad_visit x radial dist) order (rU x, rv x) else (rU x, rv x) in
+  let ud := dL x <? e in
+  let ur := nth s radial false && (e <? fst r) in
+  mkSt (upd lF1 s e) (upd (uF x) s e) lB1 (uB x)
+       (if ud then e else dL x) (if ud then s else dv x)
+       (if ur then e else fst r) (if ur then s else snd r) (S (iters x)).
+
+(** distances seen by a visit of the transpose from [s] (of the graph itself when
+    symmetric), and the eccentricity it measures *)
+Definition bdist (sym : bool) (dm : list (list (option nat))) (s v : nat) : option nat :=
+  if sym then dget dm s v else dget dm v s.
+Definition becc (sym : bool) (dm : list (list (option nat))) (s : nat) : nat :=
+  if sym then ecc_f_dm dm s else ecc_b_dm dm s.
+
+(** [backwards_step_sum_sweep] from [s]; [order]: the order in which the visit meets the
+    nodes.  In the symmetric case the visit has determined the forward eccentricity of [s],
+    which competes for the radius. *)
+Definition bwd_step (sym : bool) (dm : list (list (option nat))) (radial : list bool)
+    (s : nat) (order : list nat) (x : st) : st :=
+  let n := length dm in
+  let e := becc sym dm s in
+  let dist := bdist sym dm s in
+  let nf := tab n (low_upd (lF x) (uF x) dist) in
+  let r := fold_left (rad_visit x radial dist) order (rU x, rv x) in
+  let ud := dL x <? e in
+  let ur := sym && nth s radial false && (e <? fst r) in
+  mkSt (if sym then upd nf s e else nf) (if sym then upd (uF x) s e else uF x)
+       (if sym then lB x else upd (lB x) s e) (if sym then uB x else upd (uB x) s e)
+       (if ud then e else dL x) (if ud then s else dv x)
+       (if ur then e else fst r) (if ur then s else snd r) (S (iters x)).
+
+(** the SYMMETRIC branch of [all_cc_upper_bound]: [piv] gives for every node the pivot of its
+    connected component; the new upper bound of [v] is d(pivot, v) + ecc(pivot) when that is
+    smaller; a radial vertex whose bounds meet competes for the radius, node by node in the
+    order [order] of the parallel iteration *)
+Definition pivot_value (dm : list (list (option nat))) (piv : list nat) (v : nat) : nat :=
+  odef (dget dm (nth v piv 0) v) + ecc_f_dm dm (nth v piv 0).
+
+Definition allcc_visit (x : st) (radial : list bool) (pv : nat -> nat)
+    (acc : nat * nat) (v : nat) : nat * nat :=
+  let c := Nat.min (pv v) (nth v (uF x) 0) in
+  if (c =? nth v (lF x) 0) && nth v radial false && (c <? fst acc) then (c, v) else acc.
+
+Definition allcc_sym_step (dm : list (list (option nat))) (radial : list bool)
+    (piv order : list nat) (x : st) : st :=
+  let n := length dm in
+  let pv := pivot_value dm piv in
+  let r := fold_left (allcc_visit x radial pv) order (rU x, rv x) in
+  mkSt (lF x) (tab n (fun v => Nat.min (pv v) (nth v (uF x) 0))) (lB x) (uB x)
+       (dL x) (dv x) (fst r) (snd r) (iters x + 3).
+
+(** [OAll] is the symmetric SCC step; the directed branch (propagation through the
+    component DAG) is not modelled, and [OAll] is not a legal operation of the directed
+    variant *)
+Inductive op :=
+| OFwd (s : nat) (order : list nat)
+| OBwd (s : nat) (order : list nat)
+| OAll (piv : list nat) (order : list nat).
+
+Definition step (sym : bool) dm radial (o : op) (x : st) : st :=
+  match o with
+  | OFwd s ord => fwd_step sym dm radial s ord x
+  | OBwd s ord => bwd_step sym dm radial s ord x
+  | OAll piv ord => allcc_sym_step dm radial piv ord x
+  end.
+
+Definition run_ops (sym : bool) dm radial (ops : list op) (x : st) : st :=
+  fold_left (fun y o => step sym dm radial o y) ops x.
+
+(** ---- the rules BEFORE the repairs 42ca92a / 46b2bda / f9241dd of the code: initial radius
+    bound n-1 (n/2 when symmetric); no radius update for the start vertex of a backward
+    visit; no radius update in a forward visit of the symmetric variant.  Kept for the two
+    refutation theorems. ---- *)
+Definition rU_init_prefix (n : nat) (sym : bool) : nat := if sym then n / 2 else n - 1.
+Definition init_st_prefix (n : nat) (sym : bool) : st :=
+  mkSt (tab n (fun _ => 0)) (tab n (fun _ => n)) (tab n (fun _ => 0)) (tab n (fun _ => n))
+       0 0 (rU_init_prefix n sym) 0 0.
+
+Definition fwd_step_prefix (sym : bool) (dm : list (list (option nat))) (radial : list bool)
     (s : nat) (x : st) : st :=
   let n := length dm in
   let e := ecc_f_dm dm s in
@@ -56,27 +160,7 @@ Definition fwd_step (sym : bool) (dm : list (list (option nat))) (radial : list 
        (if ud then e else dL x) (if ud then s else dv x)
        (if ur then e else rU x) (if ur then s else rv x) (S (iters x)).
 
-(** distances seen by a visit of the transpose from [s] (of the graph itself when
-    symmetric), and the eccentricity it measures *)
-Definition bdist (sym : bool) (dm : list (list (option nat))) (s v : nat) : option nat :=
-  if sym then dget dm s v else dget dm v s.
-Definition becc (sym : bool) (dm : list (list (option nat))) (s : nat) : nat :=
-  if sym then ecc_f_dm dm s else ecc_b_dm dm s.
-
-(** the radius update inside the backward visit, node by node in visiting order:
-    [if low != high && low < d { low = d; if d == high && radial && d < radius { radius = (d, node) } }] *)
-Definition rad_visit (x : st) (radial : list bool) (dist : nat -> option nat)
-    (acc : nat * nat) (v : nat) : nat * nat :=
-  match dist v with
-  | Some k =>
-    let l := nth v (lF x) 0 in let h := nth v (uF x) 0 in
-    if negb (l =? h) && (l <? k) && (k =? h) && nth v radial false && (k <? fst acc)
-    then (k, v) else acc
-  | None => acc
-  end.
-
-(** [backwards_step_sum_sweep] from [s]; [order]: the order in which the visit meets the nodes *)
-Definition bwd_step (sym : bool) (dm : list (list (option nat))) (radial : list bool)
+Definition bwd_step_prefix (sym : bool) (dm : list (list (option nat))) (radial : list bool)
     (s : nat) (order : list nat) (x : st) : st :=
   let n := length dm in
   let e := becc sym dm s in
@@ -88,13 +172,15 @@ Definition bwd_step (sym : bool) (dm : list (list (option nat))) (radial : list 
        (if sym then lB x else upd (lB x) s e) (if sym then uB x else upd (uB x) s e)
        (if ud then e else dL x) (if ud then s else dv x) (fst r) (snd r) (S (iters x)).
 
-Inductive op := OFwd (s : nat) | OBwd (s : nat) (order : list nat).
+Definition step_prefix (sym : bool) dm radial (o : op) (x : st) : st :=
+  match o with
+  | OFwd s _ => fwd_step_prefix sym dm radial s x
+  | OBwd s ord => bwd_step_prefix sym dm radial s ord x
+  | OAll piv ord => allcc_sym_step dm radial piv ord x
+  end.
 
-Definition step (sym : bool) dm radial (o : op) (x : st) : st :=
-  match o with OFwd s => fwd_step sym dm radial s x | OBwd s ord => bwd_step sym dm radial s ord x end.
-
-Definition run_ops (sym : bool) dm radial (ops : list op) (x : st) : st :=
-  fold_left (fun y o => step sym dm radial o y) ops x.
+Definition run_ops_prefix (sym : bool) dm radial (ops : list op) (x : st) : st :=
+  fold_left (fun y o => step_prefix sym dm radial o y) ops x.
 
 (** ---- [find_missing_nodes] ---- *)
 Definition count (n : nat) (f : nat -> bool) : nat := length (filter f (seq 0 n)).
@@ -147,6 +233,55 @@ Definition replay (sym : bool) (g : graph) (radial : list bool) (ops : list op) 
   let x := run_ops sym dm radial ops (init_st n sym) in
   (missing_nodes l (find_missing sym n radial x), output sym n radial x).
 
+(** the same under the pre-repair rules *)
+Definition replay_prefix (sym : bool) (g : graph) (radial : list bool) (ops : list op) (l : level)
+    : nat * ess_out :=
+  let dm := dist_matrix g in
+  let n := length g in
+  let x := run_ops_prefix sym dm radial ops (init_st_prefix n sym) in
+  (missing_nodes l (find_missing sym n radial x), output sym n radial x).
+
+(** ---- [find_best_pivot], symmetric case: in every connected component the node minimising
+    bw_low + forward_low + (n if forward-complete) + (n if backward-complete);
+    the nodes are scanned from the last to the first and replaced on a strict improvement
+    or, with [USE_TOT], on a tie with forward_tot + bw_tot not larger.  In the symmetric
+    variant both totals are the array forward_tot, to which every visit from s adds d(s,v)
+    for the nodes v it reaches: [tot_sym] computes it from the pivots of the visits so far ---- *)
+Definition pivot_score (sym : bool) (n : nat) (x : st) (v : nat) : nat :=
+  nth v (bl sym x) 0 + nth v (lF x) 0 + (if incF x v then 0 else n) + (if incB sym x v then 0 else n).
+
+Definition visit_pivots (ops : list op) : list nat :=
+  flat_map (fun o => match o with OFwd s _ | OBwd s _ => [s] | OAll _ _ => [] end) ops.
+
+Definition tot_sym (dm : list (list (option nat))) (n : nat) (vis : list nat) : list nat :=
+  tab n (fun v => list_sum (map (fun s => odef (dget dm s v)) vis)).
+
+Definition better (use_tot : bool) (score tot : list nat) (w q : nat) : bool :=
+  (nth w score 0 <? nth q score 0) ||
+  (use_tot && (nth w score 0 =? nth q score 0) &&
+   (nth w tot 0 + nth w tot 0 <=? nth q tot 0 + nth q tot 0)).
+
+Definition pick (bt : nat -> nat -> bool) (p : option nat) (w : nat) : option nat :=
+  match p with
+  | None => Some w
+  | Some q => if bt w q then Some w else p
+  end.
+
+Definition best_pivots (sym use_tot : bool) (dm : list (list (option nat))) (n : nat)
+    (tot : list nat) (x : st) : list nat :=
+  let score := tab n (pivot_score sym n x) in
+  tab n (fun v => odef (fold_left (pick (better use_tot score tot))
+                                  (filter (fun w => reaches dm v w) (rev (seq 0 n))) None)).
+
+(** a logged step: a visit, or an SCC step whose pivots are those [find_best_pivot] chooses
+    in the current state *)
+Inductive lop := LO (o : op) | LA (order : list nat).
+Definition resolve (sym use_tot : bool) dm (n : nat) (vis : list nat) (x : st) (l : lop) : op :=
+  match l with
+  | LO o => o
+  | LA ord => OAll (best_pivots sym use_tot dm n (tot_sym dm n vis) x) ord
+  end.
+
 (** ---- the iteration counters of [find_missing_nodes] and the main loop of [compute] ---- *)
 Record counters := mkC { c_ri : option nat; c_di : option nat; c_fi : option nat; c_ai : option nat }.
 
@@ -162,30 +297,32 @@ Definition upd_counters (m : missing) (it : nat) (c : counters) : counters :=
       (if (m_af m =? 0) && (m_ab m =? 0) then Some it else c_ai c).
 
 (** [while missing_nodes > 0 { step; find_missing_nodes }]: [ok] records that the loop was
-    entered only with missing nodes and left with none *)
-Fixpoint loop_ops (sym : bool) dm (n : nat) radial (l : level) (ops : list op) (x : st)
-    (c : counters) (ok : bool) : bool * (counters * st) :=
+    entered only with missing nodes and left with none; [vis]: the pivots of the visits so far *)
+Fixpoint loop_ops (sym use_tot : bool) dm (n : nat) radial (l : level) (ops : list lop)
+    (vis : list nat) (x : st) (c : counters) (ok : bool) : bool * (counters * st) :=
   match ops with
   | [] => (ok && (missing_nodes l (find_missing sym n radial x) =? 0), (c, x))
   | o :: r =>
     let ok' := ok && negb (missing_nodes l (find_missing sym n radial x) =? 0) in
-    let x' := step sym dm radial o x in
-    loop_ops sym dm n radial l r x' (upd_counters (find_missing sym n radial x') (iters x') c) ok'
+    let o' := resolve sym use_tot dm n vis x o in
+    let x' := step sym dm radial o' x in
+    loop_ops sym use_tot dm n radial l r (visit_pivots [o'] ++ vis) x'
+             (upd_counters (find_missing sym n radial x') (iters x') c) ok'
   end.
 
 (** a logged run: the visits of the initial SumSweep heuristic, one [find_missing_nodes],
-    then the visits of the main loop *)
-Definition run_logged_dm (sym : bool) (dm : list (list (option nat))) (n : nat) (radial : list bool)
-    (heur loop : list op) (l : level) : bool * (counters * ess_out) :=
+    then the steps of the main loop *)
+Definition run_logged_dm (sym use_tot : bool) (dm : list (list (option nat))) (n : nat)
+    (radial : list bool) (heur : list op) (loop : list lop) (l : level)
+    : bool * (counters * ess_out) :=
   let x0 := run_ops sym dm radial heur (init_st n sym) in
   let c0 := upd_counters (find_missing sym n radial x0) (iters x0) (mkC None None None None) in
-  match loop_ops sym dm n radial l loop x0 c0 true with
+  match loop_ops sym use_tot dm n radial l loop (visit_pivots heur) x0 c0 true with
   | (ok, (c, x)) => (ok, (c, output sym n radial x))
   end.
-Definition run_logged (sym : bool) (g : graph) (radial : list bool) (heur loop : list op) (l : level)
-    : bool * (counters * ess_out) :=
-  run_logged_dm sym (dist_matrix g) (length g) radial heur loop l.
-
+Definition run_logged (sym use_tot : bool) (g : graph) (radial : list bool) (heur : list op)
+    (loop : list lop) (l : level) : bool * (counters * ess_out) :=
+  run_logged_dm sym use_tot (dist_matrix g) (length g) radial heur loop l.
 
 End EssM.
 Export EssM.
